@@ -15,6 +15,7 @@ type Style struct {
 	QuoteIDs bool // identifiers as "name"
 	OptKw    bool // write optional keywords (AS, INNER, ASC)
 	LimitOffsetSwap bool
+	ZeroPad  bool // some non-negative integer literals get leading zeros (010 is ten)
 	R        *core.Rand
 }
 
@@ -88,10 +89,23 @@ func TextOK(v Val) bool {
 	return false
 }
 
+// num writes a non-negative integer, with leading zeros under ZeroPad.
+func (r *rend) num(n int64) {
+	t := strconv.FormatInt(n, 10)
+	if r.st.ZeroPad && n >= 0 && (r.st.R == nil || r.st.R.Bool()) {
+		k := 1
+		if r.st.R != nil {
+			k = r.st.R.Range(1, 3)
+		}
+		t = strings.Repeat("0", k) + t
+	}
+	r.toks = append(r.toks, tok{t, true})
+}
+
 func (r *rend) lit(v Val) {
 	switch v.K {
 	case 'i':
-		r.toks = append(r.toks, tok{strconv.FormatInt(v.I, 10), true})
+		r.num(v.I)
 	case 's':
 		r.toks = append(r.toks, tok{"'" + v.S + "'", false})
 	case 'b':
@@ -245,7 +259,7 @@ func renderStmtInto(r *rend, s *proto.Stmt) {
 			r.kw(typeKw(d.Type))
 			if d.Type == "varchar" {
 				r.p("(")
-				r.toks = append(r.toks, tok{strconv.FormatInt(d.Len, 10), true})
+				r.num(d.Len)
 				r.p(")")
 			}
 		}
@@ -406,13 +420,13 @@ func renderInto(r *rend, n *proto.NStmt) {
 		lim := func() {
 			if n.HasLimit {
 				r.kw("LIMIT")
-				r.toks = append(r.toks, tok{strconv.Itoa(n.Limit), true})
+				r.num(int64(n.Limit))
 			}
 		}
 		off := func() {
 			if n.HasOffset {
 				r.kw("OFFSET")
-				r.toks = append(r.toks, tok{strconv.Itoa(n.Offset), true})
+				r.num(int64(n.Offset))
 			}
 		}
 		if st.LimitOffsetSwap {
